@@ -206,12 +206,15 @@ impl C17 {
             let mut h = base.clone();
             h.tua.cost = Cost::Scalar(h.tua.scalar() + k);
             variants.push((format!("analysed task WCET +{}", k), h));
-            let mut h = base.clone();
-            add_jitter(&mut h.tua.arr, k);
-            variants.push((format!("analysed task release jitter +{}", k), h));
-            let mut h = base.clone();
-            if shorten_period(&mut h.tua.arr, k) {
-                variants.push((format!("analysed task period -{}", k), h));
+            // jitter and period changes realign the search space: try several magnitudes
+            for kk in [1, 2, k + 2, rng.range(1, 30)] {
+                let mut h = base.clone();
+                add_jitter(&mut h.tua.arr, kk);
+                variants.push((format!("analysed task release jitter +{}", kk), h));
+                let mut h = base.clone();
+                if shorten_period(&mut h.tua.arr, kk) {
+                    variants.push((format!("analysed task period -{}", kk), h));
+                }
             }
         }
         if !base.others.is_empty() {
@@ -222,12 +225,14 @@ impl C17 {
                 // NP: the whole job is one segment
             }
             variants.push((format!("interfering task {} WCET +{}", i, k), h));
-            let mut h = base.clone();
-            add_jitter(&mut h.others[i].arr, k);
-            variants.push((format!("interfering task {} release jitter +{}", i, k), h));
-            let mut h = base.clone();
-            if shorten_period(&mut h.others[i].arr, k) {
-                variants.push((format!("interfering task {} period -{}", i, k), h));
+            for kk in [1, k + 1, rng.range(1, 30)] {
+                let mut h = base.clone();
+                add_jitter(&mut h.others[i].arr, kk);
+                variants.push((format!("interfering task {} release jitter +{}", i, kk), h));
+                let mut h = base.clone();
+                if shorten_period(&mut h.others[i].arr, kk) {
+                    variants.push((format!("interfering task {} period -{}", i, kk), h));
+                }
             }
             if base.policy == Policy::EDF && matches!(base.pre, Preempt::Limited | Preempt::Floating) {
                 let mut h = base.clone();
